@@ -63,7 +63,9 @@ func c18Positions() []c18Position {
 	ok := J{"type": "string"}
 	q := J{"type": "object", "properties": J{"q": J{"type": "integer"}}}
 	return []c18Position{
-		{"root-property", true, func(f any) ([]genlab.File, []string) { return one(J{"type": "object", "properties": J{"ok": ok, "bad": f}}) }},
+		{"root-property", true, func(f any) ([]genlab.File, []string) {
+			return one(J{"type": "object", "properties": J{"ok": ok, "bad": f}})
+		}},
 		{"nested-property", true, func(f any) ([]genlab.File, []string) {
 			return one(J{"type": "object", "properties": J{"ok": ok, "o": J{"type": "object", "properties": J{"bad": f}}}})
 		}},
